@@ -35,7 +35,8 @@ Inductive oval :=
                                 dataset, name, results *)
 | VStr (s : str)
 | VLog (cells : list cell)
-| VLogTyped.                 (* read_csv converted the message column to numbers / booleans *)
+| VLogTyped
+| VRes (id : N).              (* the tool results read back *)                 (* read_csv converted the message column to numbers / booleans *)
 
 (* expectation attached to a retrieval item of w2: which stored model it should be *)
 Record case := mkCase {
@@ -119,7 +120,7 @@ Definition out_agree {A} (m : err + A) (o : oout) : bool :=
   end.
 
 (* values: re-run the retrieval programs of the model *)
-Inductive mval := MNone | MEntry (h n : N) (has_res : bool) (desc : option str) | MStr (s : str) | MLog (l : logres).
+Inductive mval := MNone | MEntry (h n : N) (has_res : bool) (desc : option str) | MStr (s : str) | MLog (l : logres) | MRes (id : N).
 
 Definition item_val (i : witem) (f : fs) : mval :=
   match i with
@@ -137,6 +138,12 @@ Definition item_val (i : witem) (f : fs) : mval :=
       match snd (retrieve_annotation name f) with inr a => MStr a | inl _ => MNone end
   | WGetLog =>
       match snd (retrieve_log f) with inr l => MLog l | inl _ => MNone end
+  | WSubRetrieve s name =>
+      match snd (sub_retrieve s name f) with
+      | inr (_, h, n, r, a) => MEntry h n (match r with Some _ => true | None => false end) (Some a)
+      | inl _ => MNone
+      end
+  | WGetResults c => match snd (retrieve_results c f) with inr id => MRes id | inl _ => MNone end
   | _ => MNone
   end.
 
@@ -152,6 +159,7 @@ Definition val_agree (m : mval) (o : oval) : nat :=
          && match d with Some a => str_eqb a d' | None => true end then 0 else 1
   | MEntry _ _ _ _, VEntry None _ _ _ _ => 1
   | MStr a, VStr b => if str_eqb a b then 0 else 1
+  | MRes a, VRes b => if N.eqb a b then 0 else 1
   | MLog (LCells l), VLog l' => if list_eqb cell_eqb l l' then 0 else 1
   | _, _ => 1
   end.
@@ -234,6 +242,19 @@ Definition expected_annot (done : list witem) (name : str) : option str :=
 Definition expected_log (done : list witem) : list str :=
   flat_map (fun i => match i with WLog _ _ _ msg => [msg] | _ => [] end) done.
 
+Definition option_str_eqb (a b : option str) : bool :=
+  match a, b with Some x, Some y => str_eqb x y | None, None => true | _, _ => false end.
+
+Fixpoint res_candidates (cx : option str) (w : list witem) (o : list oout) (acc : option (list N)) : option (list N) :=
+  match w, o with
+  | WResults cx' id :: w', OOk :: o' =>
+      res_candidates cx w' o' (if option_str_eqb cx' cx then Some [id] else acc)
+  | WResults cx' id :: w', _ :: o' =>
+      res_candidates cx w' o' (if option_str_eqb cx' cx then option_map (fun l => id :: l) acc else acc)
+  | _ :: w', _ :: o' => res_candidates cx w' o' acc
+  | _, _ => acc
+  end.
+
 (* the oracle on one recovery item; [evs] = all events observed before the item started *)
 Definition oracle_item (c : case) (done : list witem) (evs : list op) (i : witem) (o : oout) (v : oval) : list nat :=
   match i with
@@ -274,6 +295,26 @@ Definition oracle_item (c : case) (done : list witem) (evs : list op) (i : witem
       match o, v with
       | OOk, VLog cells => tag (list_eqb cell_eqb (map CStr (expected_log done)) cells) 17
       | _, _ => [17]
+      end
+  | WSubRetrieve s name =>
+      (* the name layer of a subcontext: like WRetrieve, against the stores made through that subcontext *)
+      let sub_stored := fun j => match j with WSubStore s' m => if str_eqb s' s && str_eqb (m_name m) name then Some m else None | _ => None end in
+      let last := fun l => fold_left (fun acc j => match sub_stored j with Some m => Some m | None => acc end) l None in
+      match o, v with
+      | OOk, VEntry _ _ _ d eqk =>
+          match last done, last (c_w1 c ++ c_w2 c) with
+          | Some m, _ | None, Some m =>
+              tag (committed_in evs (m_key m)) 11 ++ tag (existsb (N.eqb (m_key m)) eqk) 12 ++ tag (str_eqb (m_desc m) d) 12
+          | None, None => [11]
+          end
+      | _, _ => tag (match last done with Some _ => false | None => true end) 13
+      end
+  | WGetResults cx =>
+      (* tool results stored successfully are read back: the last completed store_results of that context,
+         or one that was in progress after it when the process died *)
+      match res_candidates cx (c_w1 c) (c_out1 c) None with
+      | Some ids => match o, v with OOk, VRes id' => tag (existsb (N.eqb id') ids) 18 | _, _ => [18] end
+      | None => []
       end
   | _ => []
   end.
@@ -325,6 +366,13 @@ Definition torn_on (c : case) (p : path) : bool :=
   | _, _ => false
   end.
 
+(* the interrupted write is a context's results.json *)
+Definition torn_results (c : case) : bool :=
+  match c_torn c, nth_error (trace (c_w1 c) []) (k_of c) with
+  | Some _, Some (OpenW q _) => match rev q with CResJson :: _ => true | _ => false end
+  | _, _ => false
+  end.
+
 Definition guard_tags (c : case) : list nat :=
   let f1 := f1_of c in
   tag (annot_guard (c_w1 c ++ c_w2 c)) 201
@@ -332,6 +380,28 @@ Definition guard_tags (c : case) : list nat :=
   ++ tag (negb (retransact_crash f1 c)) 204
   ++ tag (negb (torn_on c log_path)) 206
   ++ tag (di_guard (c_w1 c ++ c_w2 c)) 207
-  ++ tag (rebind_guard (c_w1 c ++ c_w2 c)) 208.
+  ++ tag (rebind_guard (c_w1 c ++ c_w2 c)) 208
+  ++ tag (negb (torn_results c)) 209.
 
 Definition verdict (c : case) : list nat := check_corr c ++ check_oracle c ++ guard_tags c.
+
+(* ---- two concurrent writers: the final tree against the two serial orders --------------------- *)
+Record ccase := mkCC {
+  cc_pre : list witem;                    (* run first, by one process *)
+  cc_a : list witem;                      (* writer A *)
+  cc_b : list witem;                      (* writer B, concurrently *)
+  cc_tree : list (path * onode);          (* the tree after both finished *)
+  cc_ok : bool                            (* every item of both writers returned without an exception *)
+}.
+Definition in_db (p : path) : bool := match p with CDb :: _ => true | _ => false end.
+Definition part_agree (P : path -> bool) (f : fs) (t : list (path * onode)) : bool :=
+  tree_agree (filter (fun e => P (fst e)) f) (filter (fun e => P (fst e)) t).
+(* 21: the model database is that of neither serial order; 22: the context files (name links, annotations —
+   they are written under their own lock after the transaction) are those of neither serial order;
+   23: a writer raised *)
+Definition cverdict (c : ccase) : list nat :=
+  let fa := run (cc_pre c ++ cc_a c ++ cc_b c) [] in
+  let fb := run (cc_pre c ++ cc_b c ++ cc_a c) [] in
+  tag (part_agree in_db fa (cc_tree c) || part_agree in_db fb (cc_tree c)) 21
+  ++ tag (part_agree (fun p => negb (in_db p)) fa (cc_tree c) || part_agree (fun p => negb (in_db p)) fb (cc_tree c)) 22
+  ++ tag (cc_ok c) 23.
